@@ -42,7 +42,8 @@ _c = Rabin(
     ['GenProofs/FixpointProofs.v', 'GenProofs/RabinProofs.v',
      'GenProofs/InitProofs.v', 'GenProofs/TransducerModel.v',
      'GenProofs/RabinTProofs.v', 'GenProofs/RabinLive2.v',
-     'GenProofs/RabinNB3.v', 'GenProofs/RabinWins.v', 'Properties/C05.v'],
+     'GenProofs/RabinNB3.v', 'GenProofs/RabinWins.v',
+     'GenProofs/MooreIndepSolver.v', 'Properties/C05.v'],
     'hand-written model GenProofs/TransducerModel.v of '
     'make_rabin_transducer (tie H: full truth tables of action[impl] and '
     'init[impl] compared on every run), built on the translated '
